@@ -576,7 +576,7 @@ def known_match(case: dict, detail: dict) -> Optional[str]:
         return 'C08-F6'
     if cl[0] == 'notfound':
         krs = detail['keyrefs'].get(cl[1], [])
-        if any(k in krs and m >= 2 for k, m in fl['spread']):
+        if any(k in krs and m != 1 for k, m in fl['spread']):     # 0: a stale table from outside the scope is read
             return 'C08-F4'
         if side == 'spec-only' and any(k in fl['strq'] for k in krs):
             return 'C08-F5'
